@@ -889,6 +889,16 @@ func (sd *SimDrive) Init(c *Config, s *simbox.Simbox, vm *VM) error {
 					if ipos == -1 {
 						ipos = len(inj)
 						inj = append(inj, loc)
+
+						re := regexp.MustCompile("^i(?P<input>[0-9]+)$")
+						if re.MatchString(rule.Object) {
+							inIdxS := re.ReplaceAllString(rule.Object, "${input}")
+							inIdx, err := strconv.Atoi(inIdxS)
+							if err != nil {
+								return err
+							}
+							needValid[ipos] = inIdx
+						}
 					}
 
 					if actOnTick, ok := perset[rule.Tick]; ok {
